@@ -96,6 +96,9 @@ impl Pay for Tracked {
 
 impl Drop for Tracked {
     fn drop(&mut self) {
+        // a destructor takes time: other threads may run between its start and the moment the payload is gone
+        // (this is what exposes storage handed to a new event while the old payload is still being destroyed)
+        crate::sched::yield_here("payload.drop");
         if self.alive == ALIVE {
             if let Some(m) = DROPS.lock().unwrap().as_mut() {
                 *m.entry(self.v).or_insert(0) += 1;
